@@ -673,6 +673,14 @@ def cash_replay(ctx: Ctx, recs: List[Dict[str, Any]]) -> None:
         ce = [-log2frac(fr(rs[i]["m2"][0])) for i in small]
         crits.append(("user Exp2Loss (default search)", Exp2Loss(), ce, True, 4e-6, small))
         crits.append(("user SumExp2Loss (default search)", sum_criterion()(), ce, True, 4e-6, small))
+        # the library's own criterion on the default search: the optimised certainty equivalent at its CURRENT w (not the optimal
+        # one): w - E[u(x + w)] with u(z) = 1 - 2^-z has the certainty equivalent -log2 mean 2^-x whatever w is
+        from pfhedge.nn.modules.loss import OCE
+        for w0 in (0.0, 0.75, -1.5):
+            oce = OCE(lambda z: 1 - torch.exp2(-z)).to(dtype)
+            with torch.no_grad():
+                oce.w.fill_(w0)
+            crits.append((f"OCE(1 - 2^-z, w={w0}) (default search)", oce, ce, True, 4e-6, small))
         crits.append(("user LowerPartialMoment (default search)", flat_criterion()(), None, True, 4e-6, allc))
         crits.append(("user MeanLoss (default search)", MeanLoss(), [float(fr(r["mean"])) for r in rs], False, 4e-6, allc))
         q = [i for i, r in enumerate(rs) if r["max"] <= 4]
@@ -701,7 +709,12 @@ def cash_replay(ctx: Ctx, recs: List[Dict[str, Any]]) -> None:
                 base = torch.tensor(ce, dtype=dtype)
                 # shifts keep a*(x + c) inside the range where the criterion's own value mean exp(-a x) is a normal float
                 # (|a x| < 700 in float64, < 85 in float32): beyond it the expected utility itself is not representable
-                for c, dt2, tol2 in ((100.0, torch.float64, 1e-9), (-100.0, torch.float64, 1e-9), (200.0, torch.float64, 1e-9), (30.0, torch.float32, 2e-5), (-30.0, torch.float32, 2e-5)):
+                shifts = [(100.0, torch.float64, 1e-9), (-100.0, torch.float64, 1e-9), (200.0, torch.float64, 1e-9), (30.0, torch.float32, 2e-5), (-30.0, torch.float32, 2e-5)]
+                if fam == "EntropicRiskMeasure":
+                    # the risk MEASURE is (1/a) log mean exp(-a x): finite and cash-invariant for every finite sample (C05), far beyond the
+                    # range where exp(-a x) itself is representable - and so is its cash amount, minus the risk
+                    shifts += [(2000.0, torch.float64, 1e-9), (-2000.0, torch.float64, 1e-9), (200.0, torch.float32, 2e-5), (-200.0, torch.float32, 2e-5)]
+                for c, dt2, tol2 in shifts:
                     try:
                         got = crit.cash((Xc + c).to(dt2)).double()
                     except Exception as e:
